@@ -185,17 +185,26 @@ def run(ctx):
     pool = [('sig+-', make_algebra([1, -1])), ('sig-+', make_algebra([-1, 1])), ('sig++', make_algebra([1, 1])),
             ('pga-default', make_algebra([0, 1, 1])), ('pga-named', Algebra.fromname('2DPGA')), ('sig110', make_algebra([1, 1, 0])),
             ('basis-e21', make_algebra([1, 1], None, ['e', 'e1', 'e2', 'e21'])), ('basis-swapped', make_algebra([1, 1], None, ['e', 'e2', 'e1', 'e12']))]
-    for (na, A), (nb, B) in itertools.combinations(pool, 2):
+    # every pair in both orders, cold (the operator has never seen these key tuples) and warm (each algebra has already
+    # used the operator on the same ordered pair of key tuples, so a function for them is cached)
+    for phase in ('cold', 'warm'):
+      for (na, A), (nb, B) in itertools.permutations(pool, 2):
         xa = A.multivector(keys=(1,), values=[2]); xb = B.multivector(keys=(1,), values=[3])
-        for op in ('gp', 'add', 'op', 'ip', 'sw'):
-            ctx.case(('reject', na, nb, op), tag='rejection')
+        for op in ('gp', 'add', 'op', 'ip', 'sw', 'sub', 'rp', 'cp', 'div'):
+            if phase == 'warm':
+                try:
+                    BIN[op](xa, A.multivector(keys=(1,), values=[5]))
+                    BIN[op](B.multivector(keys=(1,), values=[5]), xb)
+                except ZeroDivisionError:
+                    pass
+            ctx.case(('reject', phase, na, nb, op), tag='rejection:' + phase)
             try:
                 r = BIN[op](xa, xb)
-                ctx.violation('not-rejected', {'a': na, 'b': nb, 'op': op}, 'AlgebraError', str(mv_to_dict(r)), key='rejection')
+                ctx.violation('not-rejected', {'a': na, 'b': nb, 'op': op, 'cache': phase}, 'AlgebraError', str(mv_to_dict(r)), key='rejection:' + phase)
             except AlgebraError:
                 pass
             except Exception as e:
-                ctx.violation('not-rejected', {'a': na, 'b': nb, 'op': op}, 'AlgebraError', repr(e)[:100], key='rejection:other-error')
+                ctx.violation('not-rejected', {'a': na, 'b': nb, 'op': op, 'cache': phase}, 'AlgebraError', repr(e)[:100], key='rejection:other-error')
     for sig in ([1, -1], [0, 1, 1]):
         A, B = make_algebra(sig), make_algebra(sig)
         try:
